@@ -25,7 +25,7 @@ from __future__ import annotations
 import ast
 
 from ..repo import AnalysisError, dotted, own_nodes
-from .common import source_pos
+from .common import reorder_ops, source_pos
 
 MANIFEST = {
     "text": (
@@ -197,6 +197,41 @@ def _by_role(ctx, module_suffix, pred, what, prefer=None):
 
 def _calls_attr(*attrs):
     return lambda n: isinstance(n, ast.Call) and isinstance(n.func, ast.Attribute) and n.func.attr in attrs
+
+
+def _num_const(fi, e):
+    """Numeric value of a literal or of a module-level constant name."""
+    if isinstance(e, ast.Constant) and isinstance(e.value, (int, float)) and not isinstance(e.value, bool):
+        return e.value
+    if isinstance(e, ast.Name):
+        v = getattr(fi.module, "assigns", {}).get(e.id)
+        if v is not None:
+            return _num_const(fi, v)
+    return None
+
+
+def _affine_in(fi, expr, var):
+    """expr contains  <non-zero numeric constant> * var  (or var * constant):
+    the value moves by a fixed step per unit of ``var`` - one row per machine."""
+    for n in ast.walk(expr):
+        if isinstance(n, ast.BinOp) and isinstance(n.op, ast.Mult):
+            for a, b in ((n.left, n.right), (n.right, n.left)):
+                if isinstance(a, ast.Name) and a.id == var:
+                    k = _num_const(fi, b)
+                    if k is not None and k != 0:
+                        return True
+    return False
+
+
+def _count_with_step(fi, it):
+    """zip(schedule.schedule, count(<start>, <non-zero constant step>))"""
+    if not (isinstance(it, ast.Call) and isinstance(it.func, ast.Name) and it.func.id == "zip" and len(it.args) == 2):
+        return False
+    c = it.args[1]
+    if not (isinstance(c, ast.Call) and ast.unparse(c.func).split(".")[-1] == "count" and len(c.args) == 2):
+        return False
+    k = _num_const(fi, c.args[1])
+    return k is not None and k != 0
 
 
 def _legend_labels(ctx):
@@ -406,7 +441,7 @@ def run(ctx):
         t0, t1 = (e.id if isinstance(e, ast.Name) else None for e in fors[0].target.elts)
         if it0 == "enumerate(schedule.schedule)":
             mi, ms = t0, t1
-        elif it0.startswith("zip(schedule.schedule,") and ("count(_BASE_Y_POSITION,_Y_POSITION_INCREMENT)" in it0):
+        elif it0.startswith("zip(schedule.schedule,") and _count_with_step(pms, ctx.norm.xexpr(pms, fors[0].iter)):
             ms, yvar = t0, t1
         else:
             raise AnalysisError(f"_plot_machine_schedules: machine loop over `{it0[:60]}` not recognised")
@@ -442,7 +477,7 @@ def run(ctx):
             else:
                 defs = ctx.flow.defs(pms)
                 yt = ctx.norm.xtext(pms, c.args[2]).replace(" ", "")
-                row_ok = (yvar is not None and yt == yvar) or (mi is not None and mi in yt and "_Y_POSITION_INCREMENT" in yt)
+                row_ok = (yvar is not None and yt == yvar) or (mi is not None and _affine_in(pms, ctx.norm.xexpr(pms, c.args[2]), mi))
                 if not row_ok:
                     ok = False
                     chk.violation("R20.b", pms, c, f"the bar's row `{yt}` is not derived from the machine index", loc=pms.loc(c))
@@ -493,6 +528,10 @@ def run(ctx):
                 dt2 = dt2.replace(k, v)
             if st == f"{sop}.start_time" and dt2 in (f"{sop}.end_time-{sop}.start_time", f"{sop}.operation.duration"):
                 good = True
+            # the same through local aliases, however they were introduced
+            xs, xd = ctx.norm.xtext(pso, s0).replace(" ", ""), ctx.norm.xtext(pso, d0).replace(" ", "")
+            if xs == f"{sop}.start_time" and xd in (f"{sop}.end_time-{sop}.start_time", f"{sop}.operation.duration"):
+                good = True
         if good:
             fc = next((ast.unparse(k.value) for k in b.keywords if k.arg == "facecolors"), None)
             if fc != pso.params[3]:
@@ -509,57 +548,91 @@ def run(ctx):
         chk.ok("R20.b", pms.qualname, pms.loc(), "one single-range bar per scheduled operation, row by machine index, job colour shared with legend")
 
     # ---------------------------------------------------------------- R20.c
-    frames = repo.find_function("create_gantt_chart_frames")
-    loops = [n for n in frames.node.body if isinstance(n, ast.For)]
+    frames_raw = repo.find_function("create_gantt_chart_frames")
+    frames = ctx.norm.flat(frames_raw, depth=3)  # private steps (_save_frame, replay preparation) inlined
+    _p = source_pos(frames.node)
+
+    def calls_in(node, attr):
+        return [c for c in ast.walk(node) if isinstance(c, ast.Call) and isinstance(c.func, ast.Attribute) and c.func.attr == attr]
+
+    loops = [n for n in own_nodes(frames.node) if isinstance(n, ast.For) and calls_in(n, "dispatch") and calls_in(n, "savefig")]
+    # innermost such loop
+    loops = [lp for lp in loops if not any(o is not lp and o in list(ast.walk(lp)) for o in loops)]
     if len(loops) != 1:
-        raise AnalysisError("create_gantt_chart_frames: frame loop not recognised")
+        raise AnalysisError("create_gantt_chart_frames: frame loop (dispatch + savefig) not recognised")
     lp = loops[0]
-    it = ast.unparse(lp.iter).replace(" ", "")
     okc = True
-    if it not in ("enumerate(schedule_history,start=1)", "enumerate(schedule_history,1)"):
-        okc = False
-        if it.startswith("enumerate(schedule_history"):
-            chk.violation("R20.c", frames, lp.iter, f"frames are numbered by `{it}`: the k-th frame is not saved under index k", loc=frames.loc(lp))
-        else:
-            chk.violation("R20.c", frames, lp.iter, f"frames are produced over `{it}`, not over the recorded history in order", loc=frames.loc(lp))
-    else:
-        iv, rec = lp.target.elts[0].id, lp.target.elts[1].id
-        body_calls = []
-        for st in lp.body:
-            for n in ast.walk(st):
-                if isinstance(n, ast.Call):
-                    body_calls.append(n)
-        disp = [c for c in body_calls if isinstance(c.func, ast.Attribute) and c.func.attr == "dispatch"]
-        plot = [c for c in body_calls if isinstance(c.func, ast.Name) and c.func.id == "plot_function"]
-        sv = [c for c in body_calls if isinstance(c.func, ast.Name) and c.func.id == save_raw.name]
-        if len(disp) != 1 or len(plot) != 1 or len(sv) != 1:
+    itx = ctx.norm.xexpr(frames, lp.iter)
+    is_enum = isinstance(itx, ast.Call) and isinstance(itx.func, ast.Name) and itx.func.id == "enumerate" and itx.args
+    if not (is_enum and isinstance(lp.target, ast.Tuple) and len(lp.target.elts) == 2 and all(isinstance(e, ast.Name) for e in lp.target.elts)):
+        reord = list(reorder_ops(itx))
+        if reord:
             okc = False
-            chk.violation("R20.c", frames, lp, "each frame is not produced by exactly one dispatch, one plot and one save", loc=frames.loc(lp))
+            chk.violation("R20.c", frames_raw, lp.iter, f"frames are produced over `{ast.unparse(lp.iter)}`, not over the recorded history in order", loc=frames.loc(lp))
         else:
-            _p = source_pos(frames.node)
-            if not (_p(disp[0]) < _p(plot[0]) < _p(sv[0])):
-                okc = False
-                chk.violation("R20.c", frames, plot[0], "the frame is plotted before its operation is dispatched (frame k shows k-1 operations)", loc=frames.loc(plot[0]))
-            if [ast.unparse(a) for a in disp[0].args] != [f"{rec}.operation", f"{rec}.machine_id"]:
-                okc = False
-                chk.violation("R20.c", frames, disp[0], f"frame {iv} does not dispatch ({rec}.operation, {rec}.machine_id) of the k-th record", loc=frames.loc(disp[0]))
-            if not plot[0].args or ast.unparse(plot[0].args[0]) != "dispatcher.schedule":
-                okc = False
-                chk.violation("R20.c", frames, plot[0], "the frame does not plot the dispatcher's schedule", loc=frames.loc(plot[0]))
-            if len(sv[0].args) < 3 or ast.unparse(sv[0].args[2]) != iv:
-                okc = False
-                chk.violation("R20.c", frames, sv[0], "the frame is not saved under its own index", loc=frames.loc(sv[0]))
-            if any(isinstance(n, (ast.If, ast.Break, ast.Continue)) and not ("plot_current_time" in ast.unparse(n)) for st in lp.body for n in ast.walk(st) if isinstance(n, (ast.If, ast.Break, ast.Continue))):
-                okc = False
-                chk.violation("R20.c", frames, lp, "frames are produced conditionally: some steps of the history have no frame", loc=frames.loc(lp))
-    if okc:
-        chk.ok("R20.c", frames.qualname, frames.loc(lp), "frame k: dispatch record k, plot dispatcher.schedule, save as k")
-    # the solver branch must replay on a reset dispatcher with the observer detached
-    src = ast.unparse(frames.node)
-    if "dispatcher.unsubscribe(history_tracker)" in src and "dispatcher.reset()" in src:
-        chk.ok("R20.c", frames.qualname, frames.loc(), "solver history replayed on a reset dispatcher")
+            raise AnalysisError("create_gantt_chart_frames: the frame loop does not enumerate the history")
     else:
-        chk.violation("R20.c", frames, None, "the solver's history is replayed without resetting the dispatcher / detaching the history observer")
+        start = next((k.value for k in itx.keywords if k.arg == "start"), itx.args[1] if len(itx.args) > 1 else None)
+        hist = itx.args[0]
+        iv, rec = lp.target.elts[0].id, lp.target.elts[1].id
+        hist_text = ast.unparse(hist)
+        reord = list(reorder_ops(hist)) or (isinstance(hist, ast.Subscript) and isinstance(hist.slice, ast.Slice))
+        if reord:
+            okc = False
+            chk.violation("R20.c", frames_raw, lp.iter, f"frames are produced over `{hist_text}`, not over the recorded history in order", loc=frames.loc(lp))
+        elif not (isinstance(start, ast.Constant) and start.value == 1):
+            okc = False
+            chk.violation(
+                "R20.c", frames_raw, lp.iter,
+                f"frames are numbered by `{ast.unparse(lp.iter)}`: the k-th frame is not saved under index k", loc=frames.loc(lp))
+        else:
+            disp = calls_in(lp, "dispatch")
+            svf = calls_in(lp, "savefig")
+            # the plot: the call (other than dispatch) that is handed <D>.schedule
+            drecv = ctx.norm.xtext(frames, disp[0].func.value) if disp else ""
+            plot = [
+                c for st in lp.body for c in ast.walk(st)
+                if isinstance(c, ast.Call) and c.args and ctx.norm.xtext(frames, c.args[0]) == f"{drecv}.schedule"
+            ]
+            if len(disp) != 1 or len(plot) != 1 or len(svf) != 1:
+                okc = False
+                if len(disp) == 1 and not plot:
+                    chk.violation("R20.c", frames_raw, lp, "the frame does not plot the dispatcher's schedule", loc=frames.loc(lp))
+                else:
+                    chk.violation("R20.c", frames_raw, lp, "each frame is not produced by exactly one dispatch, one plot and one save", loc=frames.loc(lp))
+            else:
+                if not (_p(disp[0]) < _p(plot[0]) < _p(svf[0])):
+                    okc = False
+                    chk.violation("R20.c", frames_raw, plot[0], "the frame is plotted before its operation is dispatched (frame k shows k-1 operations)", loc=frames.loc(plot[0]))
+                dargs = [ctx.norm.xtext(frames, a) for a in disp[0].args] + [ctx.norm.xtext(frames, k.value) for k in disp[0].keywords]
+                if dargs != [f"{rec}.operation", f"{rec}.machine_id"]:
+                    okc = False
+                    chk.violation("R20.c", frames_raw, disp[0], f"frame {iv} does not dispatch ({rec}.operation, {rec}.machine_id) of the k-th record", loc=frames.loc(disp[0]))
+                # saved under its own index: the file name's formatted number is the loop index
+                name_arg = ctx.norm.xexpr(frames, svf[0].args[0]) if svf[0].args else None
+                idx_ok = name_arg is not None and any(
+                    isinstance(v, ast.FormattedValue) and isinstance(v.value, ast.Name) and ctx.norm.xtext(frames, v.value) == iv
+                    for j_ in ast.walk(name_arg) if isinstance(j_, ast.JoinedStr) for v in j_.values
+                )
+                if not idx_ok:
+                    okc = False
+                    chk.violation("R20.c", frames_raw, svf[0], "the frame is not saved under its own index", loc=frames.loc(svf[0]))
+                skipping = [
+                    n for st in lp.body for n in ast.walk(st)
+                    if isinstance(n, (ast.If, ast.Break, ast.Continue)) and "plot_current_time" not in ast.unparse(n)
+                ]
+                if skipping:
+                    okc = False
+                    chk.violation("R20.c", frames_raw, lp, "frames are produced conditionally: some steps of the history have no frame", loc=frames.loc(lp))
+    if okc:
+        chk.ok("R20.c", frames_raw.qualname, frames.loc(lp), "frame k: dispatch record k, plot dispatcher.schedule, save as k")
+    # the solver branch must replay on a reset dispatcher with the observer detached
+    unsub = {ctx.norm.xtext(frames, c.func.value) for c in calls_in(frames.node, "unsubscribe")}
+    resets = {ctx.norm.xtext(frames, c.func.value) for c in calls_in(frames.node, "reset") if not c.args}
+    if unsub & resets:
+        chk.ok("R20.c", frames_raw.qualname, frames.loc(), "solver history replayed on a reset dispatcher")
+    else:
+        chk.violation("R20.c", frames_raw, None, "the solver's history is replayed without resetting the dispatcher / detaching the history observer")
 
     # ---------------------------------------------------------------- R20.d
     gc = repo.find_class("GanttChartCreator")
